@@ -217,6 +217,8 @@ def run(tier, seed):
     # definitions whose tail is split into words by the writers (destination, title, attributes with and without values)
     dl += [("x:linkdef-words", b"[foo]: /url a b c d e f g\n\n[foo] ![i][foo]\n"), ("x:linkdef-attrs", b'[r]: http://x.y/ "T" class=c width=3px height=4px x\n\ntext [r] ![i][r]\n'),
            ("x:linkdef-angle", b"[a]: <http://x.y/z> 'single' k=v\n[b]: u (paren title) k\n\n[a] [b]\n"), ("x:imgattr", b'![i](p.png "t" width=3px  height=4px k)\n'),
+           # code spans whose content is blank(s) only, or a blank on either side (the writers trim the first and last inner token)
+           ("x:codespans", b"a ` ` b `\\ ` c ` x ` d `     ` e `` ` `` f\n\n` `\n"),
            # links whose text starts with a two-character opener: the writers widen a token to print it
            ("x:openerlink", b"[^foo](url)\n\ntext [^foo](url) and [#c](u) [%v](u) [>a](u) [?g](u) more\n\n[^r][l] ![#i](p.png)\n\n[l]: /d\n")]
     gen = [("seq", c02.text_of(table, s)) for s in seqs] + [("seq3", c02.text_of(table, s)) for s in (rnd.sample(seqs3, 1500 if tier == "quick" else 12000))] + [("sim", c02.text_of(table, s)) for s in sim]
@@ -254,6 +256,10 @@ def run(tier, seed):
                 # packaged formats go through mmd_engine_convert_to_data on the same engine
                 for f in ("bundlezip", "epub", "odt"):
                     s.append(line("e_data", 0, docs.FMT[f])); s.append(line("e_tree", 0, "export:" + f))
+            if name.startswith(("x:", "pool:")) and x in (docs.STD, 0):
+                # a metadata key is set on the parsed engine (the text grows at the front): whatever tree is exposed afterwards describes the new text
+                s.append(line("e_parse", 0)); s.append(line("e_meta", 0, "upd", sx(b"revision"), sx(b"2"))); s.append(line("e_tree", 0, "update"))
+                s.append(line("e_settext", 0, "d%d" % j)); s.append(line("e_parse", 0))
             # sub-ranges on line boundaries
             cuts = [k + 1 for k, ch in enumerate(b) if ch == 10][:40]
             if cuts and len(b) < 20000 and not name.startswith("opml"):          # (an imported outline's text is not the bytes handed in: offsets into those mean nothing)
